@@ -12,7 +12,11 @@ from amaranth.lib import memory as libmem
 from amaranth.sim import Simulator
 
 
-def simulate(h, trace, probe_names=None, pre_elab=False):
+def simulate(h, trace, probe_names=None, pre_elab=False, design=None):
+    """``design``: simulate this already elaborated Design (the very elaboration that was compiled) instead of
+    elaborating ``h.top`` again (Fragment.prepare() cannot be applied twice, so the Simulator object is assembled
+    around the existing Design; used only as a fallback when a fresh instance behaves differently from the explored
+    one, i.e. when the hardware depends on the history of the process)."""
     probes = [(n, p) for n, p in h.probes if probe_names is None or n in probe_names]
     ins = [AValue.cast(s) for _, s in h.inputs]
     result = []
@@ -38,6 +42,27 @@ def simulate(h, trace, probe_names=None, pre_elab=False):
 
     with warnings.catch_warnings():
         warnings.simplefilter("ignore")
+        if design is not None:
+            from amaranth.sim.pysim import PySimEngine
+            sim = Simulator.__new__(Simulator)
+            sim._design, sim._engine, sim._clocked, sim._running = design, PySimEngine(design), set(), False
+            has_sync = "sync" in design.fragment.domains
+            if has_sync:
+                sim.add_clock(1e-6)
+
+            async def tb2(ctx):
+                for letter in trace:
+                    for sig, v in zip(ins, letter):
+                        if len(sig):
+                            ctx.set(sig, v if not sig.shape().signed else _to_signed(v, len(sig)))
+                    result.append(tuple(getp(ctx, p) for _, p in probes))
+                    if has_sync:
+                        await ctx.tick()
+                    else:
+                        await ctx.delay(1e-6)
+            sim.add_testbench(tb2)
+            sim.run()
+            return result
         if pre_elab:
             # configurations flagged elab_twice: the instance has been elaborated once before it is simulated
             from amaranth.hdl import Fragment
